@@ -164,7 +164,7 @@ func Solve(text string, quickT, slowT int, wantModel bool) Verdict {
 	cf := filepath.Join(cacheDir, key[:2], key+".json")
 	if b, err := os.ReadFile(cf); err == nil {
 		var v Verdict
-		if json.Unmarshal(b, &v) == nil && (v.Status == "unsat" || v.Status == "sat") {
+		if json.Unmarshal(b, &v) == nil && (v.Status == "unsat" || v.Status == "sat" || (v.Status == "unknown" && slowT == 0)) {
 			v.Cached = true
 			return v
 		}
@@ -172,6 +172,15 @@ func Solve(text string, quickT, slowT int, wantModel bool) Verdict {
 	ctx := context.Background()
 	v := runOne(ctx, solvers[0], text, quickT, wantModel)
 	if v.Status == "error" {
+		return v
+	}
+	if v.Status == "unknown" && slowT == 0 {
+		// cover checks: "not refuted within the short timeout" is the expected answer; remember it
+		cacheMu.Lock()
+		os.MkdirAll(filepath.Dir(cf), 0o755)
+		b, _ := json.Marshal(v)
+		os.WriteFile(cf, b, 0o644)
+		cacheMu.Unlock()
 		return v
 	}
 	if v.Status == "unknown" {
